@@ -425,7 +425,14 @@ fn digest_main(args: &[String]) -> ! {
 // ---------------------------------------------------------------------------
 // parent
 
-const PROFILES: [(&str, &str); 3] = [("dev", "/verif/target/debug/vc_math"), ("release", "/verif/target/release/vc_math"), ("relsize", "/verif/target/relsize/vc_math")];
+const PROFILE_DIRS: [(&str, &str); 3] = [("dev", "debug"), ("release", "release"), ("relsize", "relsize")];
+
+/// (profile name, binary path); the target directory is /verif/target unless VERIF_TARGET names
+/// another one (seeded-change trials build into their own).
+fn profiles() -> Vec<(&'static str, String)> {
+    let base = std::env::var("VERIF_TARGET").unwrap_or_else(|_| "/verif/target".to_string());
+    PROFILE_DIRS.iter().map(|(n, d)| (*n, format!("{base}/{d}/vc_math"))).collect()
+}
 
 #[derive(Debug, Clone, PartialEq)]
 enum ChildOut {
@@ -472,13 +479,13 @@ fn describe(op: &Op, mode: &str, index: u64, seed: u64) -> Value {
 
 /// Compare the three profiles on [start, start+count); on mismatch bisect to the first index.
 fn compare_range(op: &Op, mode: &str, start: u64, count: u64, seed: u64) -> Result<u64, (Fail, Repro)> {
-    let outs: Vec<ChildOut> = PROFILES.iter().map(|(_, bin)| run_digest(bin, op.name, mode, start, count, seed)).collect();
+    let outs: Vec<ChildOut> = profiles().iter().map(|(_, bin)| run_digest(bin, op.name, mode, start, count, seed)).collect();
     for (k, o) in outs.iter().enumerate() {
         match o {
             ChildOut::Broken(m) => return Err((Fail::new("C19/harness/child-broken", m.clone()), Repro { op: op.name.into(), mode: mode.into(), index: start, seed })),
             ChildOut::Panic(i, msg) => {
                 return Err((
-                    Fail::new(format!("C19/{}/panic-on-finite-input/{}", op.name, PROFILES[k].0), format!("profile {} panicked at {}: {msg}", PROFILES[k].0, describe(op, mode, *i, seed))),
+                    Fail::new(format!("C19/{}/panic-on-finite-input/{}", op.name, PROFILE_DIRS[k].0), format!("profile {} panicked at {}: {msg}", PROFILE_DIRS[k].0, describe(op, mode, *i, seed))),
                     Repro { op: op.name.into(), mode: mode.into(), index: *i, seed },
                 ))
             }
